@@ -12,6 +12,11 @@ use std::sync::atomic::{AtomicU64, Ordering};
 use std::sync::Arc;
 use std::task::{Context, Poll, Wake, Waker};
 
+// The same executor serves the engine `bytechan_nocoop`, which links the channel built without its
+// default `coop` feature (the pass-through twins of the `AsyncRead`/`AsyncWrite` impls, no budget).
+#[cfg(feature = "nocoop")]
+use swimos_byte_channel::{are_connected, byte_channel, ByteReader, ByteWriter};
+#[cfg(not(feature = "nocoop"))]
 use swimos_utilities::byte_channel::{are_connected, byte_channel, BudgetedFutureExt, ByteReader, ByteWriter, RunWithBudget};
 use tokio::io::{AsyncRead, AsyncWrite, ReadBuf};
 
@@ -586,6 +591,10 @@ fn noop_waker() -> Waker {
 /// Put this thread's channel budget back to "unset" so that a case does not depend on what ran on
 /// the worker thread before it: a unit future that consumes budget, polled once under a budget of
 /// one, exhausts the budget (which clears it).
+#[cfg(feature = "nocoop")]
+pub fn reset_thread_budget() {}
+
+#[cfg(not(feature = "nocoop"))]
 pub fn reset_thread_budget() {
     let w = noop_waker();
     let mut cx = Context::from_waker(&w);
@@ -666,6 +675,9 @@ pub fn run_task(exec: &mut Exec, mode: Mode, max_ops: usize, next: &mut dyn FnMu
                 let mut fut = pin!(body);
                 let _ = fut.as_mut().poll(&mut cx);
             }
+            #[cfg(feature = "nocoop")]
+            Mode::Budget(_) => unreachable!("no budget wrapper exists without the coop feature"),
+            #[cfg(not(feature = "nocoop"))]
             Mode::Budget(n) => {
                 let fut = RunWithBudget::with_budget(NonZeroUsize::new(n).expect("budget >= 1"), body);
                 let mut fut = pin!(fut);
